@@ -19,6 +19,9 @@ claimed = {
  "C05": dict(tech=TECH, ref="3 C05", text="Same exploration plus two concurrent controllers; at every controller return superseded instances must already be cancelled and at most one live instance exists; at quiescence the survivor must derive from the current context and have the latest state."),
  "C07": dict(tech=TECH, ref="3 C07", text="Every schedule (within the bound) of a controller issuing words over restart/reset/context calls, removals (immediate, delayed, ClearContext, SyncKeys) and non-restarting calls against scripted key routines (run until cancelled with exit latency, fail then run) with freely firing retry and removal timers; per-key overlap, cancelled-on-removal, nothing-restarts and retry-survives oracles at call return and at quiescence."),
  "C06": dict(tech=TECH_HIST + "; plus a schedule exploration of the stale-timer window", ref="3 C06", text="Every operation sequence up to depth 4-5 (quick) / 6-7 (thorough) over the key-set API of Keyed and KeyedRefCount, times release delay, context and routine-script configurations, replayed on fresh real objects under the deterministic scheduler with manual timers; after every operation the reported key set, data and return values are compared with a reference model; delays expire as explicit letters and at the end. A schedule-explored scenario covers a stale removal-timer callback."),
+ "C08": dict(tech=TECH, ref="3 C08-C10", text="Every schedule (within the bound) of reference users (AddRef with callback or nil, Release, double Release), context changes and released() invalidations against a scripted resolver (value, error, late return after cancellation, slow, invalidated from another thread), both keep-unreferenced settings: each release function at most once always and exactly once at final quiescence unless legitimately kept, never while the target still holds the value or a held reference was last told the value, never without reason while references are held."),
+ "C09": dict(tech=TECH, ref="3 C08-C10", text="Same drivers plus restart words issued while old resolver calls are still returning: at most one resolver call at a time; at every quiescent state with context and a held reference a resolver call is parked or the latest result is in the target containers and in every held reference callback (also for references added later); no panic (nil callback) and no deadlock."),
+ "C10": dict(tech=TECH, ref="3 C08-C10", text="Every schedule (within the bound) of Wait/Resolve/ResolveWithReleased holders and Access callers (callback parks, returns at once, returns errors) against released() invalidations, context changes, caller cancellation and other references: held values are not released unless invalidated, the released callback fires exactly once by the next quiescent state, invalidated callbacks are cancelled (not parked at quiescence) and re-invoked, Access returns only a valid invocation's result, errors pass through."),
  "C01": dict(tech=TECH, ref="3 C01", text="Every interleaving (preemption bound 2 quick / 3 thorough) of 8+4 small client programs of csync.Mutex/RWMutex (Lock, TryLock, Locker, double release, cancellation) runs on the real code; an exact occupancy counter checks 'one writer or many readers' at every acquire."),
  "C02": dict(tech=TECH, ref="3 C02", text="Same exploration; liveness is decided exactly at every quiescent state of the controlled scheduler (nobody parked in a grantable Lock), cancelled waiters must return context.Canceled and leave the lock probe-able, readers may not overtake a waiting writer."),
 }
